@@ -535,6 +535,17 @@ def gen_assembly(repo, kind):
     return pos, tabs, get_st, get_sz, term
 
 
+def gen_asc_ortho_take(src, name):
+    params, body = macro_body(src, name)
+    want = ['i_r', 'i_theta', 'grid', 'DirBC_Interior', 'smoother_color', 'x', 'rhs', 'temp', 'arr', 'att', 'art', 'detDF', 'coeff_beta']
+    if params != want:
+        raise TranslateError('%s parameters changed: %r' % (name, params))
+    cx = Ctx(arrays2={'rhs': 'rhs', 'x': 'x', 'arr': 'arr', 'att': 'att', 'art': 'art', 'detDF': 'det', 'temp': 'temp'},
+             arrays1={'coeff_beta': 'beta'}, own2={}, own1={},
+             int_names={'i_r': 'i', 'i_theta': 'j'}, real_names={}, bools={'DirBC_Interior': 'dirbc'})
+    return emit_block(parse_block(body), cx, 4)
+
+
 def give_call_sites(src):
     """the arguments NODE_APPLY_A_GIVE is invoked with must be the node's own cached / computed values"""
     calls = re.findall(r'NODE_APPLY_A_GIVE\s*\(([^;]*?)\)\s*;', strip_comments(src), flags=re.S)
@@ -610,7 +621,7 @@ From GMGP Require Import Scalar.
 Import ListNotations.
 Local Open Scope Z_scope.
 
-Inductive wkind := W_result_WAssign | W_result_WSub | W_result_WAdd | W_rhs_f_WMul | W_rhs_f_WAssign.
+Inductive wkind := W_result_WAssign | W_result_WSub | W_result_WAdd | W_rhs_f_WMul | W_rhs_f_WAssign | W_temp_WAssign | W_temp_WSub | W_temp_WAdd.
 
 (* PolarGrid::wrapThetaIndex, in the form C17 proves the generated index functions equal to *)
 Definition wrapT (n x : Z) : Z := x mod n.
@@ -640,6 +651,9 @@ def main():
         take = gen_take(take_src)
         give = gen_give(give_src)
         rhs = gen_rhs(open(files['rhs']).read())
+        sm_src = open(os.path.join(REPO, 'src/Smoother/SmootherTake/smootherSolver.cpp')).read()
+        asc_c = gen_asc_ortho_take(sm_src, 'NODE_APPLY_ASC_ORTHO_CIRCLE_TAKE')
+        asc_r = gen_asc_ortho_take(sm_src, 'NODE_APPLY_ASC_ORTHO_RADIAL_TAKE')
         apos, atabs, aget, asz, aterm = gen_assembly(REPO, 'take')
         gpos, gtabs, gget, gsz, gterm = gen_assembly(REPO, 'give')
     except TranslateError as ex:
@@ -656,6 +670,9 @@ def main():
         out += '\n  (* discretize_rhs_f, loop nest  for (%s) for (%s) *)\n' % (oh, ih)
         out += '  Definition gen_rhs_%s_visits (i j : Z) : bool := %s.\n' % (nm, dom)
         out += '  Definition gen_rhs_%s (rhs_f : Z -> Z -> S) (i j : Z) : list gwrite :=\n    %s.\n' % (nm, term)
+    out += '\n  (* ---- take smoother: NODE_APPLY_ASC_ORTHO_CIRCLE_TAKE / _RADIAL_TAKE (src/Smoother/SmootherTake/smootherSolver.cpp) ---- *)\n'
+    out += '  Definition gen_asc_ortho_circle_take (rhs x : Z -> Z -> S) (i j : Z) : list gwrite :=\n    %s.\n' % asc_c
+    out += '  Definition gen_asc_ortho_radial_take (rhs x : Z -> Z -> S) (i j : Z) : list gwrite :=\n    %s.\n' % asc_r
     out += '\n  (* ---- direct solver (take): stencil slot tables, getStencil, getStencilSize, NODE_BUILD_SOLVER_MATRIX_TAKE ---- *)\n'
     out += '  (* StencilPosition: %s *)\n' % ', '.join('%s = %d' % (p, i) for p, i in sorted(apos.items(), key=lambda x: x[1]))
     for nm, vals in atabs.items():
